@@ -15,6 +15,9 @@ def _h():
     return h
 
 
+ANON_IDS = set()
+
+
 class Builder:
     def __init__(self, spec, mutate=None):
         self.h = _h()
@@ -304,7 +307,9 @@ class Builder:
             d = {mem: self.expr(sub, ctx) for mem, sub in e[1]}
             if top and dict_ok and len(e) > 2 and e[2] == "dict":
                 return d
-            return h.AnonymousBundle(**d)
+            ab = h.AnonymousBundle(**d)
+            ANON_IDS.add(id(ab))  # addresses only (C12's allocation-history worker looks for their re-use)
+            return ab
         if t in ("orphan", "foreign"):
             sig = h.Signal(name="zz_%s" % t, width=e[1])
             if t == "foreign":
